@@ -14,7 +14,13 @@ import (
 
 type Rng struct{ s uint64 }
 
-func NewRng(seed uint64) *Rng { return &Rng{s: seed*0x9E3779B97F4A7C15 + 0x1234567} }
+func NewRng(seed uint64) *Rng {
+	// the state must not be an affine function of the seed (seed+1 would replay seed's stream shifted)
+	r := &Rng{s: seed ^ 0x5851F42D4C957F2D}
+	a := r.U64()
+	b := r.U64()
+	return &Rng{s: a ^ (b << 1) ^ (seed * 0xD1342543DE82EF95)}
+}
 func (r *Rng) U64() uint64 {
 	r.s += 0x9E3779B97F4A7C15
 	z := r.s
